@@ -17,6 +17,7 @@ from pony.orm import db_session, select, commit, rollback, flush
 from .. import simdb, procstate, sessmodel, seqschema, whitebox
 from ..harness import hsh
 from ..sessmodel import Refuse
+from . import seq_hooks
 
 ENT_ORDER = ('Person', 'Passport', 'Group', 'Course', 'Car')
 
@@ -42,7 +43,7 @@ def mix(*xs):
     return h
 
 
-class SeqRun(object):
+class SeqRun(seq_hooks.HooksMixin, object):
     def __init__(self, case, scratch):
         self.case = case
         self.scratch = scratch
@@ -92,7 +93,10 @@ class SeqRun(object):
         ns = {'db': db, 'Required': orm.Required, 'Optional': orm.Optional, 'Set': orm.Set,
               'PrimaryKey': orm.PrimaryKey, 'composite_key': orm.composite_key, 'int': int, 'str': str,
               'float': float, 'HOOKLOG': self.log}
-        exec(self.schema.source(self.knobs), ns)
+        self.hooks_setup(ns)
+        src_knobs = dict(self.knobs)
+        src_knobs['hooks'] = self.hook_sources()
+        exec(self.schema.source(src_knobs), ns)
         self.path = os.path.join(self.scratch, 'seq.sqlite')
         if self.knobs.get('cache_size'):
             cs = int(self.knobs['cache_size'])
